@@ -67,6 +67,7 @@ type Frame struct {
 	fn      *ssa.Function
 	vals    map[ssa.Value]SymVal
 	locals  map[*ssa.Alloc]Term
+	lptrs   map[*ssa.Alloc]*Addr // local pointer variables holding symbolic addresses
 	defers  []deferred
 	free    []SymVal
 	parent  *Frame
@@ -93,6 +94,10 @@ func (f *Frame) clone() *Frame {
 	g.locals = make(map[*ssa.Alloc]Term, len(f.locals))
 	for k, v := range f.locals {
 		g.locals[k] = v
+	}
+	g.lptrs = make(map[*ssa.Alloc]*Addr, len(f.lptrs))
+	for k, v := range f.lptrs {
+		g.lptrs[k] = v
 	}
 	g.defers = append([]deferred(nil), f.defers...)
 	g.parent = f.parent.clone()
